@@ -28,6 +28,10 @@ type errDom struct {
 // no methods of interest.
 var opaqueErrorType = types.NewPointer(types.NewNamed(types.NewTypeName(0, nil, "libraryError", nil), types.NewStruct(nil, nil), nil))
 
+// fmtWrapType is the dynamic type of the value fmt.Errorf returns for a format with %w: it matches what the wrapped error
+// matches under errors.Is and nothing else.
+var fmtWrapType = types.NewPointer(types.NewNamed(types.NewTypeName(0, nil, "fmtWrapError", nil), types.NewStruct(nil, nil), nil))
+
 func opaqueError(tag string, id int) AV {
 	return avIface{dyn: opaqueErrorType, v: avSym{id: id, tag: tag, nonNil: true, uniq: true}}
 }
@@ -58,6 +62,11 @@ func (d *errDom) errorsIs(e *Engine, st *State, err, target AV, depth int) AV {
 		return avConst{constant.MakeBool(true)}
 	}
 	iv, ok := err.(avIface)
+	if ok && types.Identical(iv.dyn, fmtWrapType) {
+		if w, isW := iv.v.(avStruct); isW {
+			return d.errorsIs(e, st, w.f["err"], target, depth+1)
+		}
+	}
 	if ok && types.Identical(iv.dyn, opaqueErrorType) {
 		return avConst{constant.MakeBool(false)} // a different library error value
 	}
@@ -195,6 +204,8 @@ func classifyErrorWith(p *Program, mapper *ssa.Function, src string, consts map[
 	d, e := newErrDom(p)
 	st := d.base.clone()
 	var errv AV
+	wrapped := strings.HasPrefix(src, "wrap:")
+	src = strings.TrimPrefix(src, "wrap:")
 	name := strings.TrimPrefix(src, "*")
 	i := strings.Index(name, ".")
 	if i < 0 {
@@ -237,6 +248,9 @@ func classifyErrorWith(p *Program, mapper *ssa.Function, src string, consts map[
 		}
 	default:
 		return "", nil, "error source " + src + " not found"
+	}
+	if wrapped {
+		errv = avIface{dyn: fmtWrapType, v: avStruct{f: map[string]AV{"err": errv}}}
 	}
 	margs := make([]AV, len(mapper.Params))
 	placed := false
